@@ -16,6 +16,13 @@ open Femio.C05
 #print axioms C05_load_complete_save
 #print axioms C05_crash_counterexample_upstream
 #print axioms C05_stale_counterexample_upstream
+#print axioms C05_crash_inv_unwind
+#print axioms C05_read_interrupt_inv
+#print axioms C05_history_inv_unwind
+#print axioms C05_crash_safe_unwind
+#print axioms C05_unwind_extends_plan
+#print axioms C05_interrupted_read_transparent
+#print axioms C05_unwind_counterexample_marker_in_finally
 open Femio.C05K
 #print axioms split_join
 #print axioms C05_keys_attr_roundtrip
